@@ -99,6 +99,12 @@ pub fn new_context_with_executor<Q: boa_engine::job::JobExecutor + 'static>(l: L
     setup_context(ctx, l)
 }
 
+/// a context whose module requests go to a caller-supplied loader
+pub fn new_context_with_loader<L: boa_engine::module::ModuleLoader + 'static>(l: Limits, loader: std::rc::Rc<L>) -> Context {
+    let ctx = Context::builder().instructions_remaining(l.instructions).module_loader(loader).build().expect("context");
+    setup_context(ctx, l)
+}
+
 fn setup_context(mut ctx: Context, l: Limits) -> Context {
     if let Some(v) = l.loop_iter { ctx.runtime_limits_mut().set_loop_iteration_limit(v); }
     if let Some(v) = l.recursion { ctx.runtime_limits_mut().set_recursion_limit(v); }
